@@ -159,4 +159,97 @@ theorem C16_slash_int_not_swi :
   · exact ⟨_, (C16_slash_int_exact 4 2 (by decide) (by decide)).choose_spec.1⟩
   · decide
 
+/-! ## ring operations, sign, abs, min, max -/
+theorem C16_plus (a b : Int) : py_plus_2 (.int a) (.int b) = .ok (.int (Iso.add a b)) := rfl
+theorem C16_minus (a b : Int) : py_minus_2 (.int a) (.int b) = .ok (.int (Iso.sub a b)) := rfl
+theorem C16_times (a b : Int) : py_times_2 (.int a) (.int b) = .ok (.int (Iso.mul a b)) := rfl
+theorem C16_neg (a : Int) : py_minus_1 (.int a) = .ok (.int (Iso.neg a)) ∧ py_plus_1 (.int a) = .ok (.int a) := ⟨rfl, rfl⟩
+
+theorem C16_abs (a : Int) : py_abs_1 (.int a) = .ok (.int (Iso.abs a)) := by
+  simp only [py_abs_1, PyNum.abs, Iso.abs]
+  congr 2; split <;> omega
+
+theorem C16_sign (a : Int) : py_sign_1 (.int a) = .ok (.int (Iso.sign a)) := by
+  unfold py_sign_1 Iso.sign
+  rcases Int.lt_trichotomy a 0 with h | h | h
+  · have h1 : ¬ (0 < a) := by omega
+    simp [PyNum.gt, PyNum.lt, PyNum.castLike, PyNum.toInt, bind, Except.bind, pure, Except.pure, h, h1, Int.sign_eq_neg_one_of_neg h]
+  · subst h; simp [PyNum.gt, PyNum.lt, PyNum.castLike, PyNum.toInt, bind, Except.bind, pure, Except.pure]
+  · have h1 : ¬ (a < 0) := by omega
+    simp [PyNum.gt, PyNum.lt, PyNum.castLike, PyNum.toInt, bind, Except.bind, pure, Except.pure, h, Int.sign_eq_one_of_pos h]
+
+theorem C16_min (a b : Int) : py_min_2 (.int a) (.int b) = .ok (.int (Iso.min a b)) := by
+  simp only [py_min_2, PyNum.min, PyNum.lt, Iso.min]
+  by_cases h : b < a
+  · have : ¬ a ≤ b := by omega
+    simp [h, this]
+  · have : a ≤ b := by omega
+    simp [h, this]
+
+theorem C16_max (a b : Int) : py_max_2 (.int a) (.int b) = .ok (.int (Iso.max a b)) := by
+  simp only [py_max_2, PyNum.max, PyNum.gt, PyNum.lt, Iso.max]
+  by_cases h : a < b
+  · have : a ≤ b := by omega
+    simp [h, this]
+  · by_cases e : a = b
+    · subst e; simp
+    · have : ¬ a ≤ b := by omega
+      simp [h, this]
+
+/-! ## shifts, complement, powers -/
+/-- `>>` is the arithmetic shift `⌊a / 2^n⌋` for every non-negative count (negative counts: ValueError →
+    ArithmeticError; unspecified in the standard). -/
+theorem C16_shr (a : Int) (n : Nat) : py_shr_2 (.int a) (.int n) = .ok (.int (Iso.shr a n)) := by
+  have h : ¬ ((n : Int) < 0) := by omega
+  simp only [py_shr_2, PyNum.shr, h, if_false, Iso.shr, Iso.floorDiv, Int.toNat_natCast]
+  rw [Int.shiftRight_eq_div_pow, Int.fdiv_eq_ediv_of_nonneg]
+  · simp
+  · exact Int.le_of_lt (Int.pow_pos (by decide))
+
+theorem C16_shl (a : Int) (n : Nat) : py_shl_2 (.int a) (.int n) = .ok (.int (Iso.shl a n)) := by
+  have h : ¬ ((n : Int) < 0) := by omega
+  simp [py_shl_2, PyNum.shl, h, Iso.shl]
+
+theorem C16_bitnot (a : Int) : py_bitnot_1 (.int a) = .ok (.int (Iso.bitnot a)) := rfl
+
+/-- `**` and `^` on integers with a non-negative exponent: the integer power (ISO `^`, SWI-7 `**`). -/
+theorem C16_caret (a : Int) (n : Nat) : py_caret_2 (.int a) (.int n) = .ok (.int (Iso.pow a n)) := by
+  have h : (0 : Int) ≤ n := by omega
+  simp [py_caret_2, PyNum.pow, h, Iso.pow]
+theorem C16_pow (a : Int) (n : Nat) : py_starstar_2 (.int a) (.int n) = .ok (.int (Iso.pow a n)) := by
+  have h : (0 : Int) ≤ n := by omega
+  simp [py_starstar_2, PyNum.pow, h, Iso.pow]
+
+/-- `integer truncate floor ceiling round` are the identity on integers. -/
+theorem C16_int_roundings_id (a : Int) :
+    py_integer_1 (.int a) = .ok (.int a) ∧ py_truncate_1 (.int a) = .ok (.int a) ∧ py_floor_1 (.int a) = .ok (.int a) ∧
+    py_ceiling_1 (.int a) = .ok (.int a) ∧ py_round_1 (.int a) = .ok (.int a) := ⟨rfl, rfl, rfl, rfl, rfl⟩
+
+/-- `#` and `><` are `xor` (YAP). -/
+theorem C16_xor_aliases (a b : PyNum) : py_hash_2 a b = py_xor_2 a b ∧ py_gtlt_2 a b = py_xor_2 a b := ⟨rfl, rfl⟩
+
+/-! ## float arguments (floats = exact rationals, see PyNum.lean) -/
+/-- `sign/1` keeps the float type. -/
+theorem C16_sign_float (q : Rat) : py_sign_1 (.flt q) = .ok (.flt (Iso.signF q)) := by
+  unfold py_sign_1 Iso.signF
+  by_cases h1 : 0 < q
+  · simp [PyNum.gt, PyNum.lt, PyNum.toRat, PyNum.castLike, PyNum.toFloat, bind, Except.bind, pure, Except.pure, h1]
+  · by_cases h2 : q < 0
+    · simp [PyNum.gt, PyNum.lt, PyNum.toRat, PyNum.castLike, PyNum.toFloat, bind, Except.bind, pure, Except.pure, h1, h2]
+    · simp [PyNum.gt, PyNum.lt, PyNum.toRat, PyNum.castLike, PyNum.toFloat, bind, Except.bind, pure, Except.pure, h1, h2]
+
+theorem C16_floor_float (q : Rat) : py_floor_1 (.flt q) = .ok (.int (Iso.floor q)) := rfl
+theorem C16_ceiling_float (q : Rat) : py_ceiling_1 (.flt q) = .ok (.int (Iso.ceiling q)) := rfl
+/-- YAP reading of `round/1` (C `rint`: halves to even); SWI rounds halves away from zero — either is accepted. -/
+theorem C16_round_float_yap (q : Rat) : py_round_1 (.flt q) = .ok (.int (Iso.roundEven q)) := rfl
+/-- `truncate/1` on a float: toward zero. -/
+theorem C16_truncate_float (q : Rat) : py_truncate_1 (.flt q) = .ok (.int (Iso.truncate q)) := by
+  simp [py_truncate_1, PyNum.trunc, PyNum.toInt, bind, Except.bind, ratTrunc_eq]
+/-- YAP reading of `integer/1` ("the integer between X and 0 closest to X"); SWI rounds to nearest — either is accepted. -/
+theorem C16_integer_float_yap (q : Rat) : py_integer_1 (.flt q) = .ok (.int (Iso.truncate q)) := by
+  simp [py_integer_1, PyNum.toInt, ratTrunc_eq]
+/-- `float_integer_part/1` is a float. -/
+theorem C16_float_integer_part (q : Rat) : py_float_integer_part_1 (.flt q) = .ok (.flt (Iso.floatIntegerPart q)) := by
+  simp [py_float_integer_part_1, PyNum.toInt, PyNum.toFloat, PyNum.toRat, bind, Except.bind, ratTrunc_eq, Iso.floatIntegerPart]
+
 end ProbLogProofs.C16
